@@ -126,6 +126,9 @@ class Gen:
             if how == "default":
                 # evaluated once, when the function is declared, however often it is called
                 f = self.fresh("d")
+                if "error(" in body:
+                    # an error-valued argument makes the static type unknown: give the default a definite type
+                    body, typ = f"if(is_error({body}), 1, 2)", "int"
                 self.decls.append(f"fn {f}(x: {typ} ?= {body}) -> int {{ 1 }}")
                 return f"{f}() + {f}()", "int"
             raise ValueError(how)
@@ -419,7 +422,7 @@ def run(chk):
             for cfg in ({p: True for p in PERM_ORDER_DOC}, {p: False for p in PERM_ORDER_DOC}, unset):
                 cases.append((sh, cfg, f"{name}/bad-arg"))
     # (2) random programs x all 64 assignments (+ the unconfigured set)
-    n_prog = 60 if quick else 1500
+    n_prog = 60 if quick else 500
     progs = []
     while len(progs) < n_prog:
         sh = random_shape(rng)
@@ -431,7 +434,7 @@ def run(chk):
             cases.append((sh, cfg, "random"))
     # (3) partially configured sets (3^6 assignments) on a few programs
     tri = [dict(zip(PERM_ORDER_DOC, bits)) for bits in itertools.product([True, False, None], repeat=6)]
-    for sh in progs[: (2 if quick else 40)]:
+    for sh in progs[: (2 if quick else 12)]:
         for cfg in (rng.sample(tri, 80) if quick else tri):
             cases.append((sh, cfg, "random3"))
 
